@@ -20,17 +20,18 @@ Record config := {
   stop_interrupts : bool;     (* Stop expires the deadlines of every tracked connection *)
   ready_on_error : bool;      (* listenerReady set even when net.Listen failed *)
   close_on_cancel : bool;     (* Run closes the listener when it returns because of Stop *)
+  accept_retry : bool;        (* a transient Accept error (descriptor exhaustion) is retried after a back-off *)
   has_unbind_route : bool;
   has_onclose : bool
 }.
 
 Definition fixed_cfg : config :=
   {| recovery := true; handler_rec := true; wg_last := true; add_before_accept := true;
-     stop_interrupts := true; ready_on_error := false; close_on_cancel := true;
+     stop_interrupts := true; ready_on_error := false; close_on_cancel := true; accept_retry := true;
      has_unbind_route := true; has_onclose := true |}.
 Definition pinned_cfg : config :=
   {| recovery := true; handler_rec := false; wg_last := false; add_before_accept := false;
-     stop_interrupts := false; ready_on_error := true; close_on_cancel := false;
+     stop_interrupts := false; ready_on_error := true; close_on_cancel := false; accept_retry := false;
      has_unbind_route := true; has_onclose := true |}.
 
 (* ---------------------------------------------------------------- *)
@@ -378,6 +379,11 @@ Definition run_step (cfg : config) (s : state) : option state :=
     match lst s with
     | Listening =>
       if accept_err s then
+        if accept_retry cfg
+        then (* the error is logged, Run backs off and goes round the loop again with the same connID *)
+          Some (mk s (lst s) (port_bound s) (ready s) (cancelled s) RTop (stops s) (pred (nextid s)) undo (backlog s)
+                   false (conns s))
+        else
         Some (mark_accept_failed
                 (mk s (lst s) (port_bound s) (ready s) (cancelled s) (RRet true) (stops s) (nextid s) undo (backlog s)
                     false (conns s)))
